@@ -1,0 +1,109 @@
+//go:build verif
+// +build verif
+
+package sleep
+
+import (
+	"sync/atomic"
+	"unsafe"
+)
+
+// Verification hooks (build tag verif). verifYield is called immediately
+// before each atomic operation on Sleeper.sharedList, Sleeper.waitingG and
+// Waker.s, before gopark and goready, and right after gopark returns. A
+// conformance harness installs a gate scheduler with VerifSetHook before any
+// goroutine uses a Sleeper or Waker. Without a hook installed it is one
+// atomic load and a nil check.
+//
+// Hook points: 1/2 AddWaker load/CAS of w.s; 3 nextWaker first load of
+// sharedList; 4 store preparingG; 5 re-check load of sharedList; 6 store 0
+// (sleep aborted by the sleeper); 7 gopark (commitSleep runs inside it);
+// 8 after gopark returned = before the next load of sharedList; 9 swap of
+// sharedList; 10 Fetch swap of w.s; 11/12 Done load/CAS of w.s; 13/14
+// enqueueAssertedWaker load/CAS of sharedList; 15/16 load/CAS of waitingG;
+// 17 goready; 18/19 Assert load/swap of w.s; 20/21 Clear load/CAS of w.s;
+// 22 IsAsserted load.
+var verifHook atomic.Value // of func(point int)
+
+func verifYield(point int) {
+	if h, _ := verifHook.Load().(func(int)); h != nil {
+		h(point)
+	}
+}
+
+// VerifSetHook installs (or, with nil, removes) the hook.
+func VerifSetHook(h func(point int)) {
+	if h == nil {
+		h = func(int) {}
+	}
+	verifHook.Store(h)
+}
+
+// Classes of Sleeper.waitingG.
+const (
+	VerifGNone      = 0 // nobody sleeping or preparing to sleep
+	VerifGPreparing = 1 // preparingG
+	VerifGParked    = 2 // a committed (parked) G
+)
+
+// VerifSleeperState classifies waitingG and reports which of the sleeper's
+// lists are empty. The list fields other than sharedList are not atomic: call
+// it only while the sleeper goroutine is stopped at a hook or parked.
+func VerifSleeperState(s *Sleeper) (waitingG int, sharedEmpty, localEmpty, allEmpty bool) {
+	switch g := atomic.LoadUintptr(&s.waitingG); g {
+	case 0:
+		waitingG = VerifGNone
+	case preparingG:
+		waitingG = VerifGPreparing
+	default:
+		waitingG = VerifGParked
+	}
+	return waitingG, atomic.LoadPointer(&s.sharedList) == nil, s.localList == nil, s.allWakers == nil
+}
+
+// VerifSleeperLists returns the wakers on sharedList (head first), localList
+// and allWakers, each cut after max elements (a corrupted list may be cyclic).
+// Same calling condition as VerifSleeperState.
+func VerifSleeperLists(s *Sleeper, max int) (shared, local, all []*Waker) {
+	for w := (*Waker)(atomic.LoadPointer(&s.sharedList)); w != nil && len(shared) < max; w = w.next {
+		shared = append(shared, w)
+	}
+	for w := s.localList; w != nil && len(local) < max; w = w.next {
+		local = append(local, w)
+	}
+	for w := s.allWakers; w != nil && len(all) < max; w = w.allWakersNext {
+		all = append(all, w)
+	}
+	return
+}
+
+// Classes of Waker.s.
+const (
+	VerifWNil      = 0 // not asserted, no sleeper pointer
+	VerifWSleeper  = 1 // not asserted, points to a sleeper (returned as owner)
+	VerifWAsserted = 2 // asserted
+)
+
+// VerifWakerState classifies w.s.
+func VerifWakerState(w *Waker) (class int, owner *Sleeper) {
+	switch p := (*Sleeper)(atomic.LoadPointer(&w.s)); p {
+	case nil:
+		return VerifWNil, nil
+	case &assertedSleeper:
+		return VerifWAsserted, nil
+	default:
+		return VerifWSleeper, p
+	}
+}
+
+// VerifWakerID returns the id the waker was last added with.
+func VerifWakerID(w *Waker) int { return w.id }
+
+// VerifForce makes a sleeper goroutine that a harness has abandoned finish a
+// blocking Fetch: it queues a fresh asserted waker (id -2) through the real
+// enqueue path, which also wakes the sleeper if it is parked.
+func VerifForce(s *Sleeper) {
+	w := &Waker{id: -2}
+	w.s = unsafe.Pointer(&assertedSleeper)
+	s.enqueueAssertedWaker(w)
+}
